@@ -11,17 +11,17 @@ def run(tier, seed):
     for (mcb, lp) in ([(0, 1), (1, 0), (2, 1)] if q else [(0, 1), (1, 0), (1, 1), (2, 0), (2, 1), (1, 2)]):
         gens.append(dict(name="C03_rand_m%d_l%d" % (mcb, lp),
                          consts=ec.consts({1, 3, 4}, A, 22 if q else 36, maxcb=mcb, limitprio=lp, scriptops=S, durs=(0, 1, 2)),
-                         simulate=60 if q else 600, depth=800, constraint="GenConstraintNT"))
+                         simulate=60 if q else 240, depth=800, constraint="GenConstraintNT"))
     # signal events: loopbreak / loopcontinue from inside the ncalls loop of a signal callback (one timer + one signal: no ties)
     gens.append(dict(name="C03_rand_sig",
                      consts=ec.consts({3, 5}, {"add", "act", "raise", "script", "loop", "flags", "break", "del", "adv", "prio"}, 12 if q else 20,
                                       scriptops={"break", "cont", "del", "act"}, durs=(0, 1)),
-                     simulate=50 if q else 500, depth=600, constraint="GenConstraintNT"))
+                     simulate=50 if q else 250, depth=600, constraint="GenConstraintNT"))
     # deferred callbacks beyond the per-iteration quota (MAX_DEFERREDS_QUEUED = 32) run in a later iteration, none lost
     gens.append(dict(name="C03_rand_defer",
                      consts=ec.consts({1, 3}, {"defer", "act", "script", "loop", "flags", "break", "later", "prio"}, 10 if q else 16,
                                       scriptops={"defer", "break", "act"}, durs=(0, 1), nd=36, maxiter=6),
-                     simulate=40 if q else 400, depth=600))
+                     simulate=40 if q else 200, depth=600))
     # a deferred callback (priority NPrio/2) scheduled from inside a running lower-priority callback preempts the rest of that queue
     gens.append(dict(name="C03_defer_prio",
                      consts=ec.consts({1, 3}, {"defer", "act", "script", "loop", "prio", "deferpat"}, 6, scriptops={"defer"}, durs=(0,), nd=4)))
